@@ -1911,7 +1911,7 @@ func TestVerifC13(t *testing.T) {
 	// the registration side: real Publisher on a scripted etcd with leases (pub_test.go)
 	kit.Run(t, "C13", "publisher", kit.N(8, 96), publisherCase)
 	// error paths of registry / subscriber / resolver followed by ordinary histories (faults_test.go)
-	kit.Run(t, "C13", "registry-faults", kit.N(72, 1800), registryFaultCase)
+	kit.Run(t, "C13", "registry-faults", kit.N(80, 2000), registryFaultCase)
 	removeTLSFiles()
 	kit.End()
 }
